@@ -14,6 +14,8 @@ import (
 	"verif/fw"
 	"verif/refws/deflate"
 	"verif/refws/frame"
+
+	"nhooyr.io/websocket"
 )
 
 // C07, a transport whose Read does not return on Close (it stays blocked for 30 s
@@ -115,7 +117,7 @@ func c07StickySetup(k connCfg, closer string) func(c *fw.Ctx, name string) explo
 // goroutine calls CloseNow. At 6 s client B is opened and reads; at 7 s late bytes of A's peer land
 // in A's stuck Read; at 8 s B's message arrives. As long as A's Close is inside the connection's
 // read buffer nobody may hand that buffer to B: every byte B reads is B's.
-func c07RereadSetup(k connCfg) func(c *fw.Ctx, name string) explore.Setup {
+func c07RereadSetup(k connCfg, x string) func(c *fw.Ctx, name string) explore.Setup {
 	return func(c *fw.Ctx, name string) explore.Setup {
 		return func(w *vs.World) func(bool) {
 			vsync.PoolLogging = true
@@ -145,15 +147,55 @@ func c07RereadSetup(k connCfg) func(c *fw.Ctx, name string) explore.Setup {
 					leaks = append(leaks, fmt.Sprintf("A: first read gave %d bytes, err=%v", len(got), err))
 					return
 				}
-				w.GoHarness("rereaderA", false, func() {
+				w.GoHarness("userA", false, func() {
 					buf := make([]byte, 16)
-					for i := 0; i < 2; i++ {
-						n, _ := r.Read(buf)
-						for _, v := range buf[:n] {
+					look := func(b []byte) {
+						for _, v := range b {
 							if v != 'A' {
-								leaks = append(leaks, fmt.Sprintf("A re-read byte %q", v))
+								leaks = append(leaks, fmt.Sprintf("A (%s) read byte %q", x, v))
+								return
 							}
 						}
+					}
+					switch x {
+					case "reread":
+						for i := 0; i < 2; i++ {
+							n, _ := r.Read(buf)
+							look(buf[:n])
+						}
+					case "read":
+						_, b, _ := a.Read(bg)
+						look(b)
+					case "readctx":
+						ctx, cancel := vctx.WithTimeout(bg, 500*time.Millisecond)
+						_, b, _ := a.Read(ctx)
+						cancel()
+						look(b)
+					case "reader-reread":
+						// the next message never comes: Reader fails when the connection is closed; the old
+						// reader is asked once more afterwards
+						a.Reader(bg)
+						n, _ := r.Read(buf)
+						look(buf[:n])
+					case "write":
+						a.Write(bg, websocket.MessageBinary, fill('a', 300))
+					case "writer-open":
+						if wr, err := a.Writer(bg, websocket.MessageBinary); err == nil {
+							wr.Write(fill('a', 300))
+							vtime.Sleep(2 * time.Second)
+							wr.Write(fill('a', 300))
+							wr.Close()
+						}
+					case "ping":
+						ctx, cancel := vctx.WithTimeout(bg, 500*time.Millisecond)
+						a.Ping(ctx)
+						cancel()
+					case "closeread":
+						vs.Recv(a.CloseRead(bg).Done())
+					case "limit+reread":
+						a.SetReadLimit(100)
+						n, _ := r.Read(buf)
+						look(buf[:n])
 					}
 				})
 				w.GoHarness("closerA", false, func() {
@@ -227,7 +269,13 @@ func c07StickyScenarios(tier string) []scenario {
 		}
 	}
 	for _, k := range []connCfg{{Client: true, Flate: true}, {Client: true, Flate: true, CNCT: true, SNCT: true}, {Client: true}, {Client: false, Flate: true}} {
-		scs = append(scs, scenario{Name: "reread-close/" + k.String(), Cfg: explore.Config{P: 2, T: 0, Horizon: 120e9}, Setup: c07RereadSetup(k)})
+		for _, x := range []string{"reread", "read", "readctx", "reader-reread", "write", "writer-open", "ping", "closeread", "limit+reread"} {
+			if x != "reread" && tier != "thorough" && !(k.Client && k.Flate && !k.CNCT) {
+				continue
+			}
+			n := x + "-close/" + k.String()
+			scs = append(scs, scenario{Name: n, Cfg: explore.Config{P: 2, T: 0, Horizon: 120e9}, Setup: c07RereadSetup(k, x)})
+		}
 	}
 	return scs
 }
